@@ -211,4 +211,8 @@ _CORE = {'name': 'core-expression-cases', 'driver': 'feelcases', 'args': ['/veri
 _LOGIC = {'name': 'logic-over-non-booleans', 'driver': 'feelcases', 'args': ['/verif/replay/cases/C09_logic.txt', 'all'],
           'functions': ['build_and', 'build_or'],
           'bound': '22 conjunctions / disjunctions with an operand that is not a boolean (one-item and longer lists of booleans, strings, numbers, contexts, nested lists): such an operand counts as null - no singleton conversion'}
-BOUNDED = {'C01': [_EQ, _CORE, _LOGIC], 'C09': [_EQ, _LOGIC]}
+_ORD = {'name': 'order-differential', 'script': 'orddiff.py', 'args': [],
+        'functions': ['build_lt / build_le / build_gt / build_ge', 'build_between', 'eval_in_range', 'eval_in_unary_less / less_or_equal / greater / greater_or_equal'],
+        'bound': 'every ordered pair of a 29-value alphabet (numbers with equal values of different scale, strings incl. the empty one, prefixes and non-ASCII, dates, both duration kinds, null, a boolean, a list) under < <= > >=, '
+                 'and every triple of one kind under between, the four kinds of range and the four unary comparison tests (7 309 evaluations) against the order written out in Python; also decides them when a rewritten body leaves the extractor\'s reach'}
+BOUNDED = {'C01': [_EQ, _CORE, _LOGIC, _ORD], 'C09': [_EQ, _LOGIC, _ORD], 'C03': [_ORD]}
